@@ -397,6 +397,42 @@ pub fn check_tz_change(case: &TzCase, obs: &mut Obs) -> CaseResult {
     result
 }
 
+/// `PatternEncoder::default()` (what an appender without an `encoder:` section gets, and the `pattern` deserializer
+/// without a `pattern` key) is documented as the pattern `{d} {l} {t} - {m}{n}`: it must render exactly like an
+/// encoder built from that string - ISO 8601 date in the LOCAL zone, level, target, message, line break.
+pub fn check_default_encoder(rec: &Rec, obs: &mut Obs) -> CaseResult {
+    use chrono::{DateTime, Utc};
+    let routes: Vec<(&str, Box<dyn log4rs::encode::Encode>)> = vec![
+        ("PatternEncoder::default()", Box::new(PatternEncoder::default())),
+        ("PatternEncoder::new(\"{d} {l} {t} - {m}{n}\")", Box::new(PatternEncoder::new("{d} {l} {t} - {m}{n}"))),
+        (
+            "the pattern deserializer without a pattern key",
+            log4rs::config::Deserializers::default().deserialize::<dyn log4rs::encode::Encode>("pattern", serde_value::Value::Map(Default::default())).map_err(|e| Failure { sig: "C09:constructor".into(), msg: e.to_string() })?,
+        ),
+    ];
+    let tail = render(&[Node::Lit { text: " ".into(), esc: 0 }, Node::Fmt { kind: Kind::Level, long: false, spec: None }, Node::Lit { text: " ".into(), esc: 0 }, Node::Fmt { kind: Kind::Target, long: false, spec: None }, Node::Lit { text: " - ".into(), esc: 0 }, Node::Fmt { kind: Kind::Message, long: false, spec: None }, Node::Fmt { kind: Kind::Newline, long: false, spec: None }], rec, &Env { thread_name: "main".into(), debug_build: cfg!(debug_assertions), now_secs: 0 });
+    for (what, enc) in &routes {
+        let t0 = Utc::now();
+        let (w, res) = match catch(|| encode_with(&**enc, rec, vec![])) {
+            Ok(x) => x,
+            Err(p) => return fail("C09:panic:encode", format!("{}: encode panicked: {}", what, p)),
+        };
+        let t1 = Utc::now();
+        ensure!(res.is_ok(), "C09:encode-error", "{}: encode returned an error", what);
+        let out = String::from_utf8_lossy(&w.bytes()).to_string();
+        ensure!(out.ends_with(&tail) && out.len() > tail.len(), "C09:output-differs", "{}: output {:?} does not end with {:?}", what, out, tail);
+        let date = &out[..out.len() - tail.len()];
+        let dt = DateTime::parse_from_rfc3339(date).map_err(|e| Failure { sig: "C09:date-format".into(), msg: format!("{}: {:?} is not an ISO 8601 / RFC 3339 date: {}", what, date, e) })?;
+        // the harness pins TZ to <+0545>-5:45
+        ensure!(dt.offset().local_minus_utc() == 20_700, "C09:date-zone", "{}: the default pattern's date {:?} carries offset {} s; the local zone has +20700 s", what, date, dt.offset().local_minus_utc());
+        let inst = dt.with_timezone(&Utc);
+        ensure!(inst >= t0 - chrono::Duration::milliseconds(1) && inst <= t1, "C09:date-instant", "{}: date {:?} outside the encode bracket [{}, {}]", what, date, t0, t1);
+        obs.sub_evals += 1;
+    }
+    obs.nontrivial = true;
+    Ok(())
+}
+
 /// The process forks after it has logged (pre-fork servers, daemonising): records of the child carry the child's id.
 #[derive(Serialize, Deserialize, Debug, Clone)]
 pub struct ForkCase {
@@ -464,6 +500,8 @@ pub fn run(run: &Run) {
     let n = run.tier.pick(6_000, 400_000);
     run.search("meaning", n, strategy(0.35), &check);
     run.search("date-subsec", run.tier.pick(500, 20_000), sub_strategy(), &check_sub);
+    run.run_replays::<Rec>("default-encoder", &check_default_encoder);
+    run.search("default-encoder", run.tier.pick(60, 3_000), rec(), &check_default_encoder);
     run.run_replays::<ForkCase>("after-fork", &check_after_fork);
     if run.worker.0 == 0 {
         for p in ["{P}", "{pid}|{P}|{m}", "[{P}] {m}"] {
@@ -482,6 +520,7 @@ pub fn replay(part: &str, case: serde_json::Value) -> Option<CaseResult> {
     match part {
         "meaning" => Some(check(&serde_json::from_value(case).ok()?, &mut Obs::default())),
         "date-subsec" => Some(check_sub(&serde_json::from_value(case).ok()?, &mut Obs::default())),
+        "default-encoder" => Some(check_default_encoder(&serde_json::from_value(case).ok()?, &mut Obs::default())),
         "after-fork" => Some(check_after_fork(&serde_json::from_value(case).ok()?, &mut Obs::default())),
         "tz-change" => Some(check_tz_change(&serde_json::from_value(case).ok()?, &mut Obs::default())),
         _ => None,
@@ -491,7 +530,7 @@ pub fn replay(part: &str, case: serde_json::Value) -> Option<CaseResult> {
 pub fn meta() -> EvidenceMeta {
     EvidenceMeta {
         level: "exploration",
-        rule: "cases = patterns generated as an AST over the documented grammar (all formatters and both aliases, literals with doubled/backslash escapes, MDC and date arguments, nesting <=4, optional width specs) printed to a string, x 1-2 generated records (Unicode text, absent optional fields, MDC maps, message delivered in 1-6 pieces), encoded into a capture sink with scripted short writes, on the main or a named thread, under both build profiles; oracle = render(AST, record) computed from the AST (never from re-parsing), equality of whole output, the exact sequence of text pieces and style requests (set before / reset after every highlight group of a coloured level, unaffected by width specs, padding outside), alias-flipped pattern renders identically; sub-second dates: cut out between literal prefix/suffix, parsed back, must lie inside the encode bracket with the requested zone's offset; after-fork: the process encodes {P}/{pid}, forks, and the child's rendering must carry the child's id; zone changes: TZ is moved through 2-3 fixed-offset zones while the process runs (1.15 s apart, chrono's own refresh interval) and every local date must carry the offset of the zone in force when it is encoded; non-trivial = AST depth>=2 or escape adjacent to a formatter or absent optional field under a spec or non-ASCII record text or MDC/date argument with escapes; distinct = FNV hash of the case".into(),
+        rule: "cases = patterns generated as an AST over the documented grammar (all formatters and both aliases, literals with doubled/backslash escapes, MDC and date arguments, nesting <=4, optional width specs) printed to a string, x 1-2 generated records (Unicode text, absent optional fields, MDC maps, message delivered in 1-6 pieces), encoded into a capture sink with scripted short writes, on the main or a named thread, under both build profiles; oracle = render(AST, record) computed from the AST (never from re-parsing), equality of whole output, the exact sequence of text pieces and style requests (set before / reset after every highlight group of a coloured level, unaffected by width specs, padding outside), alias-flipped pattern renders identically; sub-second dates: cut out between literal prefix/suffix, parsed back, must lie inside the encode bracket with the requested zone's offset; default-encoder: PatternEncoder::default(), PatternEncoder::new of the documented default pattern and the pattern deserializer without a pattern key must all render 'ISO 8601 local date, level, target - message, line break'; after-fork: the process encodes {P}/{pid}, forks, and the child's rendering must carry the child's id; zone changes: TZ is moved through 2-3 fixed-offset zones while the process runs (1.15 s apart, chrono's own refresh interval) and every local date must carry the offset of the zone in force when it is encoded; non-trivial = AST depth>=2 or escape adjacent to a formatter or absent optional field under a spec or non-ASCII record text or MDC/date argument with escapes; distinct = FNV hash of the case".into(),
         assumptions: vec![
             "date reference formatting uses chrono itself: checked is that format and zone reach chrono unaltered and the result lands in place".into(),
             "unnamed threads and highlight colours are not asserted (documentation and code disagree; statement requires only unchanged text)".into(),
